@@ -6,6 +6,8 @@ import (
 	"os"
 	"os/exec"
 	"path/filepath"
+	"runtime/debug"
+	"sbpfcheck/flow"
 	"sort"
 	"strings"
 
@@ -95,6 +97,7 @@ func benignControls(e *Env, prop string, spec *Spec) {
 			continue
 		}
 		func() {
+			defer releaseProgram(e)
 			defer os.RemoveAll(tmp)
 			if out, err := exec.Command("rsync", "-a", "--exclude", ".git", e.Repo+"/", tmp+"/").CombinedOutput(); err != nil {
 				r.Note("benign control: cannot copy the tree: %v %s", err, out)
@@ -177,6 +180,7 @@ func controls(e *Env, prop string, spec *Spec) {
 			continue
 		}
 		func() {
+			defer releaseProgram(e)
 			defer os.RemoveAll(tmp)
 			cp := exec.Command("rsync", "-a", "--exclude", ".git", e.Repo+"/", tmp+"/")
 			if out, err := cp.CombinedOutput(); err != nil {
@@ -210,4 +214,16 @@ func controls(e *Env, prop string, spec *Spec) {
 	if nSkip > 0 {
 		r.Count("positive controls skipped (patch no longer applies)", nSkip)
 	}
+}
+
+// releaseProgram: after a control variant was analysed, drop everything that keeps its SSA program alive (the memo tables
+// are keyed by function) and hand the memory back; otherwise a thorough run holds one program per variant.
+func releaseProgram(e *Env) {
+	flow.ResetCaches()
+	e.mu.Lock()
+	if e.host != nil {
+		pathProgram = e.host
+	}
+	e.mu.Unlock()
+	debug.FreeOSMemory()
 }
